@@ -9,7 +9,8 @@ git -C /repo worktree add -q --detach $WT HEAD || exit 2
 cp /venv/lib/python3.12/site-packages/pydra/utils/_version.py $WT/pydra/utils/_version.py
 cp /repo/pydra/engine/tests/data_tests/test.nii.gz $WT/pydra/engine/tests/data_tests/ 2>/dev/null
 cd $WT
-run_demo() { (cd $WT && timeout 300 env PYTHONPATH=$WT /venv/bin/python $D/demo.py >/tmp/demo_$$.log 2>&1; echo $?); }
+cp $D/demo.py $WT/demo_seed.py     # some demos check that pydra is imported from next to the demo file
+run_demo() { (cd $WT && timeout 300 env PYTHONPATH=$WT /venv/bin/python $WT/demo_seed.py >/tmp/demo_$$.log 2>&1; echo $?); }
 clean=$(run_demo)
 if ! git apply --3way $D/patch.diff 2>/tmp/apply_$$.log; then echo "APPLY-FAILED $(cat /tmp/apply_$$.log | head -3)"; git -C /repo worktree remove --force $WT; exit 3; fi
 git reset -q
